@@ -1,8 +1,19 @@
 #!/bin/bash
-# runs every archived seeded change against the check(s) of the property it breaks (from meta.json)
+# runs every archived seeded change against the check of the property it breaks (from meta.json)
+# and writes one line per seed to seeded/RESULTS.txt
 cd /verif
+out=/verif/seeded/RESULTS.txt
+: > $out.tmp
 for d in /verif/seeded/*/; do
+  [ -f "$d/meta.json" ] || continue
   p=$(python3 -c "import json; m=json.load(open('$d/meta.json')); print(m.get('breaks_property') or m.get('property'))")
-  echo "== $d ($p)"
-  tools/seedtest.sh "$d" $p 2>&1 | tail -4
+  r=$(tools/seedtest.sh "$d" $p 2>&1 | tail -2 | tr '\n' ' ')
+  name=$(basename $d)
+  verdict=MISSED
+  case "$r" in *"no-failing-input-found"*) verdict="DETECTED(no-failing-input-found)";; *VIOLATION*) verdict="DETECTED(failing input)";; esac
+  proofs=$(echo "$r" | grep -o "proofs [0-9]*/[0-9]*" | head -1)
+  corr=$(echo "$r" | grep -o "diff=[0-9]*" | head -1)
+  fail=$(echo "$r" | grep -o "fail=[0-9]*" | head -1)
+  echo "$name | $p | $verdict | correspondence $corr | oracle $fail | $proofs" | tee -a $out.tmp
 done
+mv $out.tmp $out
